@@ -112,4 +112,58 @@ fn main() {
         println!("{}", serde_json::json!({"scenario": "request_while_freshness_callback_runs", "check": "request_sets_flag", "ok": entered && n >= 2,
             "detail": format!("creator ran {} time(s); a request issued while the freshness callback was running must lead to a rebuild", n)}));
     }
+    // ---- 3: the flag is read under the cache lock: an acquirer that was queued behind a held guard while a
+    //         request came in and returned must be handed a rebuilt environment
+    {
+        let created = Arc::new(AtomicUsize::new(0));
+        let polls = Arc::new(AtomicUsize::new(0));
+        let (c, p) = (created.clone(), polls.clone());
+        let reloader = Arc::new(AutoReloader::new(move |notifier| {
+            c.fetch_add(1, Ordering::SeqCst);
+            let p = p.clone();
+            notifier.set_callback(move || {
+                p.fetch_add(1, Ordering::SeqCst);
+                false
+            });
+            Ok(Environment::new())
+        }));
+        let guard = reloader.acquire_env().unwrap();
+        let p0 = polls.load(Ordering::SeqCst);
+        let r1 = reloader.clone();
+        let done = Arc::new(AtomicBool::new(false));
+        let d = done.clone();
+        let ta = thread::spawn(move || {
+            drop(r1.acquire_env().unwrap());
+            d.store(true, Ordering::SeqCst);
+        });
+        // the queued acquirer either blocks on the cache lock (nothing polled) or (wrongly) polls first
+        wait_count(&polls, p0 + 1, Duration::from_millis(400));
+        let polled_before_lock = polls.load(Ordering::SeqCst) > p0;
+        reloader.notifier().request_reload();
+        drop(guard);
+        ta.join().unwrap();
+        let n = created.load(Ordering::SeqCst);
+        println!("{}", serde_json::json!({"scenario": "queued_acquirer_after_request", "check": "lock_held_at_creator", "ok": n == 2 && !polled_before_lock,
+            "detail": format!("an acquire_env() queued behind a held guard obtained the cache lock after request_reload() had returned: creator ran {} time(s) in total (2 expected), freshness polled before the lock was obtained: {}", n, polled_before_lock)}));
+    }
+    // ---- 4: a request that is pending before the very first acquire is served by that acquire: the one after it
+    //         does not call the creator again
+    {
+        let created = Arc::new(AtomicUsize::new(0));
+        let c = created.clone();
+        let reloader = AutoReloader::new(move |_notifier| {
+            c.fetch_add(1, Ordering::SeqCst);
+            Ok(Environment::new())
+        });
+        reloader.notifier().request_reload();
+        drop(reloader.acquire_env().unwrap());
+        drop(reloader.acquire_env().unwrap());
+        let n1 = created.load(Ordering::SeqCst);
+        reloader.notifier().request_reload();
+        drop(reloader.acquire_env().unwrap());
+        drop(reloader.acquire_env().unwrap());
+        let n2 = created.load(Ordering::SeqCst);
+        println!("{}", serde_json::json!({"scenario": "request_before_first_acquire", "check": "flag_discipline", "ok": n1 == 1 && n2 == 2,
+            "detail": format!("request, acquire, acquire: creator ran {} time(s) (1 expected); then request, acquire, acquire: {} in total (2 expected)", n1, n2)}));
+    }
 }
